@@ -22,10 +22,10 @@ type c05Case struct {
 	Decs    [6]int `json:"decs"`    // Start1, End1, ... (0 none, 1 line comment, 2 "\n", 3 block comment)
 }
 
-var c05Kinds = []string{"stmt", "decl", "spec", "field", "method", "clause", "arg", "elt", "rawarg", "rawelt", "rawstmt", "pathelt", "patharg", "casebody", "commbody", "blocks", "importspec"}
+var c05Kinds = []string{"stmt", "decl", "spec", "field", "method", "clause", "arg", "elt", "rawarg", "rawelt", "rawstmt", "pathelt", "patharg", "casebody", "commbody", "blocks", "importspec", "param", "typeparam"}
 
 func c05OwnLine(kind string) bool {
-	return kind != "arg" && kind != "elt" && !strings.HasPrefix(kind, "raw")
+	return kind != "arg" && kind != "elt" && kind != "param" && kind != "typeparam" && !strings.HasPrefix(kind, "raw")
 }
 
 // c05Build makes the real tree and the pieces of the naive text.
@@ -74,6 +74,28 @@ func c05Build(kind string) (file *dst.File, elems []dst.Node, open string, texts
 		}
 		file.Decls = []dst.Decl{fn(list...)}
 		return file, elems, "package p\n\nfunc f() {", texts, ";", "}\n"
+	case "param", "typeparam":
+		// the fields of a function's parameter list / type parameter list
+		fl := &dst.FieldList{Opening: true, Closing: true}
+		for _, n := range names {
+			typ := "int"
+			if kind == "typeparam" {
+				typ = "any"
+				n = strings.ToUpper(n)
+			}
+			f := &dst.Field{Names: []*dst.Ident{id(n)}, Type: id(typ)}
+			fl.List = append(fl.List, f)
+			elems = append(elems, f)
+			texts = append(texts, n+" "+typ)
+		}
+		fd := &dst.FuncDecl{Name: id("f"), Type: &dst.FuncType{Func: true, Params: &dst.FieldList{Opening: true, Closing: true}}, Body: &dst.BlockStmt{List: []dst.Stmt{&dst.ReturnStmt{Decs: dst.ReturnStmtDecorations{NodeDecs: dst.NodeDecs{Before: dst.NewLine, After: dst.NewLine}}}}}}
+		file.Decls = []dst.Decl{fd}
+		if kind == "param" {
+			fd.Type.Params = fl
+			return file, elems, "package p\n\nfunc f(", texts, ",", ") {\nreturn\n}\n"
+		}
+		fd.Type.TypeParams = fl
+		return file, elems, "package p\n\nfunc f[", texts, ",", "]() {\nreturn\n}\n"
 	case "importspec":
 		g := &dst.GenDecl{Tok: token.IMPORT, Lparen: true, Rparen: true}
 		for _, n := range names {
@@ -265,7 +287,7 @@ func init() {
 	core.Register(&core.Prop{
 		ID:    "C05",
 		Level: "model_checking",
-		Rule: "17 list kinds (import specs, statements, statement lists of case and comm clauses and of function bodies whose elements include bare block statements, declarations, specs, struct fields, interface methods, case clauses, call arguments, composite elements, and arguments / elements / statements ending in multi-line raw strings that contain empty lines, and arguments / elements that are package-qualified identifiers printed with import management) x all 3^6 None/NewLine/EmptyLine assignments to Before/After of 3 elements " +
+		Rule: "19 list kinds (import specs, function parameters and type parameters, statements, statement lists of case and comm clauses and of function bodies whose elements include bare block statements, declarations, specs, struct fields, interface methods, case clauses, call arguments, composite elements, and arguments / elements / statements ending in multi-line raw strings that contain empty lines, and arguments / elements that are package-qualified identifiers printed with import management) x all 3^6 None/NewLine/EmptyLine assignments to Before/After of 3 elements " +
 			"x every assignment of {none, line comment, newline, block comment} to the 6 Start/End points with <=2 (quick) / <=3 (thorough) non-empty, on hand-built trees; " +
 			"oracle: print == gofmt(text rendered by the non-additive line-break ledger) and, for own-line kinds without decorations, one blank line between neighbours iff After or Before is EmptyLine; " +
 			"state = (kind, spacing vector, decoration vector); non-trivial = any spacing/decoration set",
@@ -313,6 +335,11 @@ func init() {
 					if ctx.Expired() {
 						ctx.Cut("spacing vectors")
 						return
+					}
+					if (kind == "param" || kind == "typeparam") && dv != [6]int{} {
+						// parameter lists: the spacing rule alone (go/printer lays out comments and
+						// explicit newlines inside a signature by rules of its own, which the ledger does not model)
+						continue
 					}
 					cs := c05Case{Kind: kind, Spacing: s, Decs: dv}
 					ctx.CountState(s != [6]int{} || dv != [6]int{})
